@@ -182,7 +182,8 @@ def scalar_ops(n, K, a, obj, P):
     conf = list(K["conf"])
     bad = list(K["bad"]) if P.get("invalid", True) else []
     if P.get("small"):
-        conf, bad = conf[:1] + conf[-1:], (bad[:1] + bad[-1:] if len(bad) > 1 else bad[:1])
+        conf = [conf[i] for i in K["small_conf"]] if "small_conf" in K else conf[:1] + conf[-1:]
+        bad = bad[:1] + bad[-1:] if len(bad) > 1 else bad[:1]
     for ip in inpl:
         f = _flags(ip)
         for v in conf:
@@ -203,6 +204,7 @@ def scalar_ops(n, K, a, obj, P):
             ops.append(_call(f"update_{n}", "update:kw", x=4, **f))
             ops.append(_call(f"update_{n}", "update:kw2", x=4, ys=["list", [6]], **f))
             ops.append(_call(f"transform_{n}", "transform:attrfn", x=FN("inc"), **f))
+            ops.append(_call(f"transform_{n}", "transform:ident+attrfn", FN("ident"), x=FN("inc"), **f))
             if P.get("invalid", True):
                 ops.append(_call(f"with_{n}", "with:kw_bad", x="bad", **f))
                 ops.append(_call(f"update_{n}", "update:kw_bad", x="bad", **f))
@@ -221,7 +223,7 @@ def scalar_ops(n, K, a, obj, P):
             ops.append(_call(f"transform_{n}", "transform:noargs", **f))
         if bad:
             ops.append(_call(f"update_{n}", "update:bad", bad[0], **f))
-        fns = ["inc", "same"] + (["bad", "missing"] if P.get("invalid", True) else []) + (["raise"] if P.get("raising", False) else [])
+        fns = ["inc", "same", "ident"] + (["bad", "missing"] if P.get("invalid", True) else []) + (["raise"] if P.get("raising", False) else [])
         for fn in fns:
             ops.append(_call(f"transform_{n}", f"transform:{fn}", FN(fn), **f))
         ops.append(_call(f"reset_{n}", "reset_attr", **f))
@@ -277,6 +279,7 @@ def element_ops(n, K, a, obj, P):
                     up = {"x": 4} if nested == "Leaf" else {"n": 4}
                     ops.append(_call(f"update_{it}", "update_item:kw", 0, **up, **f))
                     ops.append(_call(f"transform_{it}", "transform_item:attrfn", 0, **{("x" if nested == "Leaf" else "n"): FN("inc")}, **f))
+                    ops.append(_call(f"transform_{it}", "transform_item:ident+attrfn", 0, FN("ident"), **{("x" if nested == "Leaf" else "n"): FN("inc")}, **f))
                     if nested == "Keyed":
                         ops.append(_call(f"update_{it}", "update_item:key_kw", "a", n=5, **f))
                         ops.append(_call(f"without_{it}", "without_item:key", "a", **f))
@@ -346,7 +349,8 @@ def assign_ops(n, K, a, obj, P):
     conf = list(K["conf"])
     bad = list(K["bad"]) if P.get("invalid", True) else []
     if P.get("small"):
-        conf, bad = conf[:1] + conf[-1:], (bad[:1] + bad[-1:] if len(bad) > 1 else bad[:1])
+        conf = [conf[i] for i in K["small_conf"]] if "small_conf" in K else conf[:1] + conf[-1:]
+        bad = bad[:1] + bad[-1:] if len(bad) > 1 else bad[:1]
     for v in conf:
         ops.append({"op": "set", "attr": n, "value": v, "shape": "set:conf"})
     for v in bad:
@@ -379,6 +383,7 @@ def toplevel_ops(rec, obj, P):
                 if P.get("raising"):
                     ops.append(_call("transform", "transform:pair_second_raise", **{n1: FN("inc"), n2: FN("raise")}, **f))
         ops.append(_call("reset", "reset", **f))
+        ops.append(_call("transform", "transform:ident+attrfn", FN("ident"), **{tab[0][0]: FN("inc")}, **f))
         if P.get("value_plus_kw", True):
             n0, K0, _ = tab[0]
             ops.append(_call("update", "update:newvalue+kw", ["inst", {}] if not rec.get("opts", {}).get("key") else ["inst", {rec["opts"]["key"]: next(K for n, K, a in tab if n == rec["opts"]["key"])["conf"][-1]}],
